@@ -95,12 +95,18 @@ def impl(c):
     fq = lambda b: [Fraction(b).numerator, Fraction(b).denominator]
     ans = [fq(eng.beat_at(t, EventTag(tag))) for t, tag in ps]
     ans2 = [fq(eng2.beat_at(t, EventTag(tag))) for t, tag in ps]
+    # query history: the same questions again on the same engine, backwards and shuffled - every answer must repeat
+    idx = list(range(len(ps)))
+    back = {i: fq(eng.beat_at(ps[i][0], EventTag(ps[i][1]))) for i in reversed(idx)}
+    random.Random(11).shuffle(idx)
+    shuf = {i: fq(eng.beat_at(ps[i][0], EventTag(ps[i][1]))) for i in idx}
+    unstable = [i for i in range(len(ps)) if back[i] != ans[i] or shuf[i] != ans[i]]
     # beat -> time -> beat, under the default tag, for every probe beat
     from simfile.timing import Beat
     rng = random.Random(c["extra"] or 7)
     bs = GT.probe_beats(c["td"], rng if c["extra"] else None)
     rt = [[b, fq(eng.beat_at(eng.time_at(Beat(b, 48))))] for b in bs]
-    return {"probes": [[t.hex(), tag] for t, tag in ps], "beats": ans, "beats_redundant": ans2, "roundtrip": rt}
+    return {"probes": [[t.hex(), tag] for t, tag in ps], "beats": ans, "beats_redundant": ans2, "roundtrip": rt, "unstable": unstable[:5]}
 
 
 def warp_union(td):
@@ -170,6 +176,9 @@ def oracle(c, o):
     dy = td["family"] == "dyadic"
     ps = [(float.fromhex(h), tag) for h, tag in o["probes"]]
     beats = [Fraction(*b) for b in o["beats"]]
+    if o.get("unstable"):
+        i = o["unstable"][0]
+        return "beat_at(%r, %s) answered %s at first and something else when asked again on the same engine (other queries in between)" % (ps[i][0], GT.TAGS[ps[i][1]], beats[i])
     # tick aligned
     for (t, tag), b in zip(ps, beats):
         if (b * 48).denominator != 1:
